@@ -41,10 +41,8 @@ def speedup(md: "Markdown") -> None:
     if "url_link" in md.inline.rules:
         text_pattern += "https?:|"
 
-    if md.inline.hard_wrap:
-        text_pattern += r" *\n|"
-    else:
-        text_pattern += r" {2,}\n|"
+    # stop before every line end: hard and soft breaks are decided by their own rules
+    text_pattern += r" *\n|"
 
     text_pattern += r"$)"
     md.inline.register("text", text_pattern, parse_text)
